@@ -21,7 +21,7 @@ __CPROVER_ensures(__CPROVER_return_value == 0 || __CPROVER_return_value == -1)
 __CPROVER_ensures(__CPROVER_old(th->cpu) != NULL || __CPROVER_return_value == -1)
 /* otherwise the thread points to the new CPU and exactly one write, of the
  * new CPU's gindex, goes to the thread's CPU channel; its result is the result */
-__CPROVER_ensures(__CPROVER_old(th->cpu) == NULL || (th->cpu == cpu &&
+__CPROVER_ensures(__CPROVER_old(th->cpu) == NULL || (__CPROVER_pointer_equals(th->cpu, cpu) &&
 	g_cs_n == __CPROVER_old(g_cs_n) + 1 &&
 	CS_ENTRY_IS(__CPROVER_old(g_cs_n), &th->chan[TH_CHAN_CPU], VALUE_INT64, cpu->gindex) &&
 	g_cs_ret[__CPROVER_old(g_cs_n)] == __CPROVER_return_value))
